@@ -246,13 +246,28 @@ where
     A: Actor<Timer = TTimer, Random = TRandom>,
     A::Msg: Code,
 {
-    for c in cmds {
-        match c {
-            TCmd::Send(d, m) => o.send(Id::from(*d), A::Msg::from_code(*m as u64)),
+    let mut i = 0;
+    while i < cmds.len() {
+        match &cmds[i] {
+            TCmd::Send(d, m) => {
+                // a run of sends of the SAME message goes through `Out::broadcast` (= the sends, in order)
+                let mut dsts = vec![Id::from(*d)];
+                while let Some(TCmd::Send(d2, m2)) = cmds.get(i + dsts.len()) {
+                    if m2 != m { break; }
+                    dsts.push(Id::from(*d2));
+                }
+                if dsts.len() >= 2 {
+                    o.broadcast(dsts.iter(), &A::Msg::from_code(*m as u64));
+                    i += dsts.len();
+                    continue;
+                }
+                o.send(Id::from(*d), A::Msg::from_code(*m as u64))
+            }
             TCmd::SetTimer(t) => o.set_timer(TTimer(*t), stateright::actor::model_timeout()),
             TCmd::CancelTimer(t) => o.cancel_timer(TTimer(*t)),
             TCmd::ChooseRandom(k, cs) => o.choose_random(key_name(*k), cs.iter().map(|c| TRandom(*c)).collect()),
         }
+        i += 1;
     }
 }
 
